@@ -189,8 +189,18 @@ TUnlockingRequest ==
        /\ done' = Ext(done, E.req, [visited |-> cur.visited, veto |-> cur.veto, ev |-> cur.ev])
        /\ UNCHANGED <<upd, vetoer, lim>>
 
+(* A plugin is dropped by NRI only if it failed: the driver announces the    *)
+(* plugins it makes fail ("leaving" before a stop, the faulty peer of a      *)
+(* fault scenario); an active plugin closed without that was healthy.        *)
+FaultyKey(p) == "faulty:" \o p
+TLeaving ==
+  /\ done' = Ext(done, FaultyKey(E.p), [wf |-> FALSE, k |-> 0])
+  /\ l' = l + 1 /\ UNCHANGED <<rvars, bad, stats, upd, vetoer, lim>>
+
 TClosed ==
   IF E.p \in dead THEN Skip
+  ELSE IF Known(E.p) /\ pst[E.p] = "active" /\ FaultyKey(E.p) \notin DOMAIN done
+       THEN Reject("C07-healthy-plugin-dropped", <<E.p, IF rlock # "" THEN cur.id ELSE "">>)
   ELSE PluginClosed(E.p) /\ Step("closes") /\ Keep
 
 \* the caller's result is computed from its own request and the responses to it only
@@ -279,6 +289,7 @@ TraceNext ==
        [] E.ev = "recv"             -> TRecv
        [] E.ev = "reply"            -> TReply
        [] E.ev = "closed"           -> TClosed
+       [] E.ev = "leaving"          -> TLeaving
        [] E.ev = "ret"              -> TRet
        [] E.ev = "updatefn.enter"   -> TUpdEnter
        [] E.ev = "updatefn.leave"   -> TUpdLeave
